@@ -295,10 +295,26 @@ func (r *Renderer) Expr(e N, sep string) { r.expr(e, pLowest, sep) }
 
 func (r *Renderer) operand(e N, min int, sep string) {
 	if r.Full {
+		if S(e, "k") == "func" && min == pCall {
+			r.rawExpr(e, sep)
+			return
+		}
 		r.expr(e, pHighest, sep)
 	} else {
 		r.expr(e, min, sep)
 	}
+}
+
+// base renders the object of an attribute access: a number literal needs
+// parentheses there ("1.b" would be lexed as a malformed number).
+func (r *Renderer) base(e N, sep string) {
+	if k := S(e, "k"); (k == "int" || k == "float") && !B(e, "paren") {
+		r.emit("(", sep)
+		r.rawExpr(e, "")
+		r.tight(")")
+		return
+	}
+	r.operand(e, pIndex, sep)
 }
 
 func (r *Renderer) rawExpr(e N, sep string) {
@@ -434,7 +450,7 @@ func (r *Renderer) rawExpr(e N, sep string) {
 		}
 		r.tight("]")
 	case "attr":
-		r.operand(M(e, "a"), pIndex, sep)
+		r.base(M(e, "a"), sep)
 		r.tight(".")
 		r.tight(S(e, "n"))
 	case "call":
@@ -598,7 +614,7 @@ func (r *Renderer) Stmt(st N) {
 		r.sp(S(st, "op"))
 		r.Expr(M(st, "e"), " ")
 	case "setattr":
-		r.operand(M(st, "a"), pIndex, sep)
+		r.base(M(st, "a"), sep)
 		r.tight(".")
 		r.tight(S(st, "n"))
 		r.sp(S(st, "op"))
